@@ -96,6 +96,8 @@ def _gen_function(classes, contracts, name, extra=None):
         out['assumptions'] = sorted(eng.used_assumptions)
         out['paths'] = len(eng.paths_ended)
         out['dropped_prefix'] = getattr(eng, 'dropped_prefix', None)
+        from . import extract as _ex
+        out['alpha_renamed'] = dict(_ex.ALPHA_RENAMED)
         out['helpers_inlined'] = getattr(eng, 'helper_sources', {})
         out['path_list'] = eng.paths_ended
     except KeyError as e:
